@@ -3,6 +3,7 @@ CONSTANTS
  AllLens <- Lens0to520
  EdgeLens <- Edges
  BigLens <- Big6
+ ShaEvery = 1
  Reps = 3
 ACTION_CONSTRAINT Emit
 CHECK_DEADLOCK FALSE
